@@ -79,6 +79,10 @@ struct Shared {
     stamp: AtomicU64,
     touched: Vec<AtomicU32>,
     inserter: Vec<AtomicU32>,
+    /// Start gate: scripts begin only once every worker thread exists (thread creation takes far
+    /// longer than a script; without the gate the threads rarely overlap at all).
+    started: AtomicU32,
+    n_threads: u32,
     multi_touch: AtomicBool,
     foreign_drop: AtomicBool,
     keep_text: bool,
@@ -444,6 +448,13 @@ fn run_worker(
 ) -> WorkerOut {
     let mut w = Worker { me, held, pools, txs, sh, events: Vec::new(), probes: Vec::new(), kind, layout };
     let mut result = Ok(());
+    // Relaxed and bounded: lines the threads up without ordering their memory accesses.
+    w.sh.started.fetch_add(1, Ordering::Relaxed);
+    let mut spins = 0_u32;
+    while w.sh.started.load(Ordering::Relaxed) < w.sh.n_threads && spins < 5000 {
+        std::thread::yield_now();
+        spins += 1;
+    }
     for op in &script {
         result = w.step(op, &rx);
         if result.is_err() {
@@ -502,6 +513,8 @@ impl MtScenario {
             stamp: AtomicU64::new(0),
             touched: (0..max_objects).map(|_| AtomicU32::new(0)).collect(),
             inserter: (0..max_objects).map(|_| AtomicU32::new(u32::MAX)).collect(),
+            started: AtomicU32::new(0),
+            n_threads: threads as u32,
             multi_touch: AtomicBool::new(false),
             foreign_drop: AtomicBool::new(false),
             keep_text: ctx.keep_log,
@@ -736,8 +749,41 @@ fn gen_op(rng: &mut Rng, w: &[u32], threads: usize) -> MtOp {
     }
 }
 
+impl MtScenario {
+    /// Directed shape: every existing slab is exactly full, one thread keeps calling
+    /// `shrink_to_fit` while the other inserts (which opens a new slab), reads the new object back
+    /// and drops it. Whatever `shrink_to_fit` decides about "trailing empty slabs" must be decided
+    /// and acted upon in one critical section with respect to that insert.
+    fn gen_shrink_vs_insert(rng: &mut Rng) -> Self {
+        let kind = *rng.pick(&[PoolKind::Opaque, PoolKind::Pinned, PoolKind::Blind]);
+        let layout = rng.below(2) as u8;
+        let cap = *rng.pick(&[1, 1, 2]);
+        let n_pre = cap * rng.range_usize(1, 2);
+        let pre = (0..n_pre).map(|_| Pre { layout, holders: vec![1], shared: false, main_keeps: false }).collect();
+        let mut shrinker = Vec::new();
+        for _ in 0..rng.range_usize(5, 9) {
+            shrinker.push(MtOp::Shrink);
+            if rng.chance(1, 4) {
+                shrinker.push(MtOp::Len);
+            }
+        }
+        let mut inserter = Vec::new();
+        for _ in 0..rng.range_usize(3, 5) {
+            inserter.push(MtOp::Insert { layout, with: rng.chance(1, 5) });
+            inserter.push(MtOp::Read { slot: n_pre });
+            inserter.push(MtOp::Drop { slot: n_pre });
+        }
+        // Thread 1 holds the pre-inserted objects and is the inserter.
+        let scripts = vec![shrinker, inserter];
+        Self { kind, layout, cap, pre, pool_for: vec![true, true], main_keeps_pool: rng.bool(), scripts, drop_at_end: vec![true, true] }
+    }
+}
+
 impl Scenario for MtScenario {
     fn generate(rng: &mut Rng, _mode: &str) -> Self {
+        if rng.chance(1, 5) {
+            return Self::gen_shrink_vs_insert(rng);
+        }
         let kind = *rng.pick(&[PoolKind::Opaque, PoolKind::Pinned, PoolKind::Blind]);
         let layout = rng.below(3) as u8;
         let cap = *rng.pick(&[1, 1, 1, 1, 2, 2, 3, 0]);
